@@ -222,6 +222,11 @@ fn replay(path: &str) -> i32 {
     for v in &r.violations {
         println!("  {} {}: {}", v.prop, v.clause, v.detail);
     }
+    if std::env::var("VSIM_VERBOSE").is_ok() {
+        if let Some(s) = &r.sample {
+            println!("{}", serde_json::to_string_pretty(s).unwrap());
+        }
+    }
     let same = r.violations.iter().any(|v| v.prop == prop && v.clause == clause);
     if same {
         if Some(hash.as_str()) != body["log_hash"].as_str() {
